@@ -39,6 +39,7 @@ pub mod c06_dfs;
 pub mod c07_bellman_ford;
 pub mod c08_floyd_warshall;
 pub mod c09_tarjan;
+pub mod c10_johnson;
 pub mod c11_ops;
 pub mod c12_predicates;
 pub mod c13_memory;
